@@ -352,8 +352,25 @@ class Nested(Sub):
 # bindings are per instance
 
 BOPS = [['setvar', 'xv', 11], ['setvar', 'TRUE', 'hijack'], ['setfn', 'XF'], ['setfn', 'SUM'], ['oncell'], ['onvar'],
-        ['onfn'], ['parse', 'xv+XF(1)+A1'], ['parse', 'nosuch+'], ['once'], ['parse', 'SUM(B2:A1)+SUM($C$3:A2)+C3']]
-PROBES = ['xv', 'XF(1)', 'A1', 'SUM(1,2)', 'TRUE', 'nosuchvar', 'A1:B2', 'IF(TRUE,1,2)', 'B2*2', 'C3-A2', 'SUM(B2:C3)']
+        ['onfn'], ['parse', 'xv+XF(1)+A1'], ['parse', 'nosuch+'], ['once'], ['parse', 'SUM(B2:A1)+SUM($C$3:A2)+C3'],
+        ['parse', 'ABS(TRUE)&SUM(TRUE)&MAXA(FALSE)&(1+2)']]
+PROBES = ['xv', 'XF(1)', 'A1', 'SUM(1,2)', 'TRUE', 'nosuchvar', 'A1:B2', 'IF(TRUE,1,2)', 'B2*2', 'C3-A2', 'SUM(B2:C3)',
+          'ABS(1.0)&"|"&SUM(1.0)&"|"&MAXA(2/2)&"|"&(0.0+1)&"|"&(3.0*1)']
+
+
+def bindings_case(payload):
+    """pristine grandchild: one binding history on parser A, then the probes on parser B"""
+    from ..core import Env
+    env = Env()
+    return Bindings().check_in_process(env, payload['case'], payload['fresh'])
+
+
+def bindings_fresh(payload):
+    """pristine grandchild: the probes on a parser that never had a sibling, in a process where nothing else ran"""
+    from ..core import Env
+    env = Env()
+    lone = new_b(env)
+    return [env.out(lone.parse(t)) for t in PROBES]
 
 
 def own_cell_listener(cell, setter):
@@ -389,14 +406,20 @@ class Bindings(Sub):
                     yield [list(seq), order]
 
     def check(self, env, case):
-        seq, order = case
+        # every case runs as the first thing a pristine process does: what parser A did in an EARLIER case must not
+        # decide (or mask) what parser B sees in this one
+        from .. import zygote
         env.nt()
-        calls = []
+        env.evals += len(PROBES)
         fresh = getattr(env, '_c03fresh', None)
         if fresh is None:
-            # computed first: the reference parser has never had a sibling that did anything
-            lone = new_b(env)
-            fresh = env._c03fresh = [env.out(lone.parse(t)) for t in PROBES]
+            fresh = env._c03fresh = zygote.call('hxverif.props.c03', 'bindings_fresh', {})
+        r = zygote.call('hxverif.props.c03', 'bindings_case', {'case': case, 'fresh': fresh})
+        return r
+
+    def check_in_process(self, env, case, fresh):
+        seq, order = case
+        calls = []
         if order == 0:
             A = env.new_parser()
             B = new_b(env)
@@ -421,7 +444,6 @@ class Bindings(Sub):
             elif op[0] == 'parse':
                 A.parse(op[1])
         del calls[:]
-        env.evals += len(PROBES)
         for t, want in zip(PROBES, fresh):
             got = env.out(B.parse(t))
             if got != want:
